@@ -8,11 +8,14 @@
 (* A node is its path from the root: a sequence of names; depth = length.   *)
 (* A tree is a function from a prefix-closed set of paths to the what-code  *)
 (* of the node's Message (0 for the root, host and session nodes).          *)
-(* Names are abstract: host "h", sessions "0" "1" "2" (the harness maps     *)
-(* them to the real host name and session ids), user names "a" "b".         *)
+(* Names are abstract: host "h", sessions "0" "1" "2" ("3") (the harness    *)
+(* maps them to the real host name and session ids), user names "a" "b".    *)
 (* Clause-level matching is C15's business: it is the table MatchSet /      *)
-(* Kind / Lits below over these names (TraversalTrace.tla checks the table  *)
-(* against what the real StringMatcher answered in the same run).           *)
+(* Kind / Lits below over these names - the clause menu {literal, escaped   *)
+(* literal \a, *, ?, (a|c), list b,a, list with an escaped item b,\a, ~a;   *)
+(* at the session level: literal id, list 1,0, range <0-1>, ~0} - and       *)
+(* TraversalTrace / RouteTrace check the table against what the real        *)
+(* StringMatcher answered in the same run.                                  *)
 (*                                                                          *)
 (* A case is [tree, pats, mode]:                                            *)
 (*  pats = the keys of one Message in order: [abs, cl, f] - written with a  *)
@@ -30,9 +33,8 @@
 (*   "F25" OPEN finding, inherent in the algorithm below (a callback on the *)
 (*         session node itself cannot say "do not descend"): the name only  *)
 (*         switches the exemption in RouteOnce on                           *)
-(*   "NoAlreadyDid", "FastPathFirstEntry", "FilterIgnored", "KeepFirstFilter"*)
-(*         deliberately wrong variants, used once to show that each         *)
-(*         invariant can fail                                               *)
+(*   "NoAlreadyDid", "FastPathFirstEntry"                                   *)
+(*         deliberately wrong variants, to show that each invariant can fail*)
 (***************************************************************************)
 EXTENDS Naturals, Sequences, FiniteSets, TLC, Json
 
@@ -66,13 +68,14 @@ MatchSet(t) == CASE t = "*"     -> AllNames
                  [] t = "?"     -> AllNames
                  [] t = "(a|c)" -> {"a"}
                  [] t = "b,a"   -> {"a", "b"}
+                 [] t = "b,\\a" -> {"a", "b"}
                  [] t = "~a"    -> AllNames \ {"a"}
-Tokens == {"*", "h", "0", "1", "2", "3", "1,0", "<0-1>", "~0", "a", "b", "\\a", "?", "(a|c)", "b,a", "~a"}
+Tokens == {"*", "h", "0", "1", "2", "3", "1,0", "<0-1>", "~0", "a", "b", "\\a", "?", "(a|c)", "b,a", "b,\\a", "~a"}
 ClMatch(t, n) == n \in MatchSet(t)
 \* "U" IsPatternUnique, "L" IsPatternListOfUniqueValues, "W" anything else ("*" is stored as a NULL matcher)
-Kind(t) == IF t \in {"h", "0", "1", "2", "3", "a", "b", "\\a"} THEN "U" ELSE IF t \in {"1,0", "b,a"} THEN "L" ELSE "W"
+Kind(t) == IF t \in {"h", "0", "1", "2", "3", "a", "b", "\\a"} THEN "U" ELSE IF t \in {"1,0", "b,a", "b,\\a"} THEN "L" ELSE "W"
 \* the keys of the hash lookups: the items of the list, unescaped, in order
-Lits(t) == CASE t = "1,0" -> <<"1", "0">> [] t = "b,a" -> <<"b", "a">> [] t = "\\a" -> <<"a">> [] OTHER -> <<t>>
+Lits(t) == CASE t = "1,0" -> <<"1", "0">> [] t = "b,a" -> <<"b", "a">> [] t = "b,\\a" -> <<"b", "a">> [] t = "\\a" -> <<"a">> [] OTHER -> <<t>>
 
 \* what the real StringMatcher answered about the tokens (rows [t, lvl, k, m] written by the harness) agrees with the table above, on the names of n sessions
 RowOK(r, n) == /\ r.t \in Tokens
@@ -90,7 +93,7 @@ Dedupe(ps, i, acc) ==
            J  == {j \in 1..Len(acc) : acc[j].cl = cl}
        IN IF J = {} THEN Dedupe(ps, i + 1, Append(acc, [cl |-> cl, f |-> ps[i].f]))
           ELSE LET j == CHOOSE x \in J : TRUE
-               IN Dedupe(ps, i + 1, IF "KeepFirstFilter" \in Deviations THEN acc ELSE [acc EXCEPT ![j].f = ps[i].f])
+               IN Dedupe(ps, i + 1, [acc EXCEPT ![j].f = ps[i].f])
 \* iteration order: depth buckets in order of first insertion, inside a bucket in order of insertion
 RECURSIVE BucketOrder(_, _, _)
 BucketOrder(es, i, acc) == IF i > Len(es) THEN acc
@@ -104,7 +107,7 @@ BucketSize(es, e) == Len(SelectSeq(es, LAMBDA x : Len(x.cl) = Len(e.cl)))
 
 \* ------------------------------------------------------------------ matching one node (PathMatches / MatchesNode / MatchesPath)
 PatMatch(cl, n) == Len(cl) = Len(n) /\ \A i \in 1..Len(cl) : ClMatch(cl[i], n[i])
-FilterOK(f, w) == f = 0 \/ w = f \/ "FilterIgnored" \in Deviations
+FilterOK(f, w) == f = 0 \/ w = f
 EntryMatches(T, e, n) == PatMatch(e.cl, n) /\ FilterOK(e.f, T[n])
 MatchesNode(T, es, n) == \E i \in 1..Len(es) : EntryMatches(T, es[i], n)
 
@@ -219,7 +222,7 @@ TreeOf(codes, dv) == [n \in NodesOf(codes) |-> WhatOf(n, dv)]
 \* the pattern menu, as clause sequences from the root (the harness has the same list; TraversalTrace compares)
 U8 == <<"a", "b", "\\a", "*", "?", "(a|c)", "b,a", "~a">>
 C5 == <<"a", "b", "*", "b,a", "~a">>
-D3 == <<"a", "*", "b,a">>
+D3 == <<"a", "*", "b,\\a">>                     \* (a list with an escaped item: the escape branch of the list scanner in DoTraversalAux)
 Menu == << <<"*">>, <<"h">>,
            <<"*", "*">>, <<"*", "0">>, <<"h", "1,0">>, <<"*", "<0-1>">> >>
         \o [i \in 1..8 |-> <<"*", "*", U8[i]>>]
